@@ -43,7 +43,7 @@ claim("C02", "E1",
       "effects of every job (R1, R2'), a forced order between every reader and every writer of every context slot including backend reads of the "
       "frontend context that the runtime ACL never checks (R2, R5, R6), the dynamic-job guard against the 647/655/1436 bug class (R3), "
       "Unknown/rewrite pairing (R4), counter-before-send in the worker closure in both build configurations (R7), main-thread reads (R8), and "
-      "must-set vs panicking get() (R9). Tests see one interleaving per run; the scheduler is declarative, so whether the declarations force an "
+      "must-set vs panicking get() (R9), and the scheduler's rewrite of a backend glyph job's read access enumerating every source of the glyph, not one instance (R15; seeded). Tests see one interleaving per run; the scheduler is declarative, so whether the declarations force an "
       "order is visible in the code for every schedule. This is not a proof of the behaviour: instance-level ordering inside multi-instance "
       "variants is covered by audited exceptions with re-checked witnesses, and counter arithmetic ('completed twice') is not decided.",
       "Trusted: rustc nightly MIR/trait resolution, the fact extractor and python rules, scheduler semantics of can_run/is_dep_fulfilled taken as axioms, "
